@@ -590,6 +590,7 @@ class Gen(object):
     def gen_module(self):
         r = self.rng
         m = Module(byte_order=r.choice(["LittleEndian", "BigEndian"]))
+        m.omit_default_order = r.random() < 0.25
         self.module = m
         if r.random() < 0.2:
             m.namespace = r.choice(["a::b", "::emb::gen", "zz", "x::y::z"])
